@@ -111,7 +111,8 @@ func runSolver(ctx context.Context, s solverSpec, file string, timeoutS int) sol
 	case "sat", "unsat":
 		ans = first
 	}
-	if strings.Contains(txt, "(error ") && !strings.Contains(strings.SplitN(txt, "\n", 2)[0], "sat") {
+	if strings.Contains(txt, "(error ") && !strings.Contains(strings.SplitN(txt, "\n", 2)[0], "sat") && first != "unknown" && first != "timeout" {
+		// (an "unknown" followed by the complaint that there is no model to print is an unknown)
 		ans = "error"
 	}
 	return solveResult{ans: ans, out: txt, solver: s.name, ms: ms}
